@@ -100,5 +100,18 @@ func VerifC16Cut() {
 	if cause != 1 {
 		vapi.Assert(!sb1.IsClosed(), "C16: another user's sessions are untouched")
 	}
+	if cause != 2 {
+		// whatever the verdict, the volume carried is deducted in both directions exactly once
+		ia, _ := w.mgr.GetUserInfo(vUIDs[0])
+		vapi.Assert(*ia.UpCredit == 100-int64(rx), "C16: stored upload credit = initial - volume carried, also when the upload terminates the user")
+		vapi.Assert(*ia.DownCredit == 100-int64(tx), "C16: stored download credit = initial - volume carried, also when the upload terminates the user")
+		ib, _ := w.mgr.GetUserInfo(vUIDs[1])
+		vapi.Assert(*ib.UpCredit == 99 && *ib.DownCredit == 100, "C16: the other user is charged its own traffic only")
+		// a further round charges nothing more
+		w.panel.updateUsageQueue()
+		w.panel.commitUpdate()
+		ia, _ = w.mgr.GetUserInfo(vUIDs[0])
+		vapi.Assert(*ia.UpCredit == 100-int64(rx) && *ia.DownCredit == 100-int64(tx), "C16: never deducted more than once")
+	}
 	vapi.Reach("cut-end")
 }
